@@ -21,7 +21,7 @@ import ast
 import itertools
 import os
 
-from .index import AnalysisError, ClassInfo, unparse, NotConst
+from .index import AnalysisError, ClassInfo, EnumVal, unparse, NotConst
 from .values import Top, HObj, Ref, Exc, State, ClassVal, GE2
 from .absint import Interp
 from .report import Finding
@@ -443,42 +443,90 @@ def _third_party_keywords():
 
 
 def check_protocol_use(chk, ix, rule):
-    """the configured protocol is installed unconditionally before the first expression is parsed"""
+    """the configured protocol is the one in force when the first expression is parsed, whatever an earlier
+    Configuration left behind (TagExpressionProtocol.use / current keep ONE process-wide slot) - by evaluation"""
     chk.rule(rule, WHAT[rule])
+    pc = ix.cls("behave.tag_expression.builder:TagExpressionProtocol")
+    use, cur = pc.lookup("use"), pc.lookup("current")
     f = ix.func("behave.configuration:Configuration.setup_tag_expression")
-    chk.instance(rule)
-    top = f.node.body
-    use_idx = [i for i, s_ in enumerate(top) if isinstance(s_, ast.Expr) and isinstance(s_.value, ast.Call) and unparse(s_.value.func) == "TagExpressionProtocol.use"]
-    mk_idx = [i for i, s_ in enumerate(top) if any(isinstance(n, ast.Call) and unparse(n.func) == "make_tag_expression" for n in ast.walk(s_))]
-    if not mk_idx:
-        raise AnalysisError("anchor missing: make_tag_expression call in Configuration.setup_tag_expression")
-    if use_idx and use_idx[0] < mk_idx[0] and [unparse(a) for a in top[use_idx[0]].value.args] == ["self.tag_expression_protocol"]:
-        chk.ok(rule, {"TagExpressionProtocol.use(self.tag_expression_protocol)": "unconditional, before parsing"}, nontrivial_key="use")
-    else:
-        _fail(chk, rule, f, "protocol selection conditional or late", "setup_tag_expression does not select the configured tag-expression protocol "
-              "unconditionally before parsing: the process-global protocol left by an earlier Configuration stays in force and the "
-              "expression is read with the wrong dialect")
-    use = ix.func("behave.tag_expression.builder:TagExpressionProtocol.use")
-    cur = ix.func("behave.tag_expression.builder:TagExpressionProtocol.current")
-    chk.instance(rule)
+    if use is None or cur is None or f is None:
+        raise AnalysisError("anchor missing: TagExpressionProtocol.use / current, Configuration.setup_tag_expression")
+    members = [m for m in ("V1", "V2", "AUTO_DETECT") if m in pc.class_consts]
+    if len(members) < 2:
+        raise AnalysisError("anchor missing: TagExpressionProtocol members V1 / V2 / AUTO_DETECT")
 
-    def slots(func, fname, n):
-        out = set()
-        for x in ast.walk(func.node):
-            if isinstance(x, ast.Call) and isinstance(x.func, ast.Name) and x.func.id == fname and len(x.args) >= n and \
-                    isinstance(x.args[0], ast.Name) and x.args[0].id == "cls" and isinstance(x.args[1], ast.Constant):
-                out.add(x.args[1].value)
-            if fname == "setattr" and isinstance(x, ast.Assign) and isinstance(x.targets[0], ast.Attribute) and unparse(x.targets[0].value) == "cls":
-                out.add(x.targets[0].attr)
-            if fname == "getattr" and isinstance(x, ast.Return) and isinstance(x.value, ast.Attribute) and unparse(x.value.value) == "cls":
-                out.add(x.value.attr)
-        return out
-    w, r = slots(use, "setattr", 3), slots(cur, "getattr", 2)
-    if w and w == r:
-        chk.ok(rule, {"use() writes": sorted(w), "current() reads": sorted(r)}, nontrivial_key="slot")
+    def member(m):
+        m = _enum_canon(pc, m)
+        return EnumVal(pc.name, m, pc.enum_members.get(m))
+
+    def current(it, st):
+        outs = it.call_function(st, cur, [], {}, None, self_val=ClassVal(pc))
+        if len(outs) != 1 or outs[0][1] != "val":
+            raise AnalysisError("TagExpressionProtocol.current() not evaluable: %r" % [(k, v) for _, k, v in outs][:3])
+        return outs[0][0], outs[0][2]
+
+    def select(it, st, m):
+        outs = it.call_function(st, use, [m], {}, None, self_val=ClassVal(pc))
+        if len(outs) != 1 or outs[0][1] != "val":
+            raise AnalysisError("TagExpressionProtocol.use(%r) not evaluable: %r" % (m, [(k, v) for _, k, v in outs][:3]))
+        return outs[0][0]
+    # (a) one slot: what use() selects is what current() answers, also when something else was selected before
+    chk.instance(rule)
+    it = Interp(ix, name="TagExpressionProtocol.use/current")
+    it.int_sat = 50
+    st = State()
+    st.frames = []
+    bad = None
+    for m in members + members[::-1]:
+        st = select(it, st, member(m))
+        st, got = current(it, st)
+        if not (isinstance(got, EnumVal) and got.name == member(m).name):
+            bad = (m, got)
+            break
+    chk.absorb(it)
+    if bad is None:
+        chk.ok(rule, {"use(m); current()": "m, for %s in both orders" % ", ".join(members)}, nontrivial_key="slot")
     else:
-        _fail(chk, rule, use, "use writes %s, current reads %s" % (sorted(w), sorted(r)),
-              "TagExpressionProtocol.use stores into %s but current() reads %s: a selected protocol is not the one used" % (sorted(w), sorted(r)))
+        _fail(chk, rule, use, "use(%s) then current() = %r" % bad,
+              "after TagExpressionProtocol.use(%s), current() answers %r: a selected protocol is not the one used" % bad)
+    # (b) setup_tag_expression: whatever protocol is in force beforehand, every expression is parsed under the configured one
+    for configured in members:
+        for before in members:
+            if before == configured:
+                continue
+            chk.instance(rule)
+            seen = []
+
+            def mk(it_, s_, args, kw, node):
+                s2, c = current(it_, s_)
+                seen.append(c.name if isinstance(c, EnumVal) else repr(c))
+                return [(s2, "val", "EXPR")]
+            it = Interp(ix, stubs={"make_tag_expression": mk}, name="setup_tag_expression")
+            it.int_sat = 50
+            st = State()
+            st.frames = []
+            st = select(it, st, member(before))
+            cc = ix.cls("behave.configuration:Configuration")
+            me = st.alloc(HObj(cc, {"config_tags": "@a", "default_tags": "", "tags": "@b", "tag_expression_protocol": member(configured),
+                                    "tag_expression": None}, label="config"))
+            outs = it.call_function(st, f, [], {}, None, self_val=me)
+            chk.absorb(it)
+            if len(outs) != 1 or outs[0][1] != "val" or not seen:
+                raise AnalysisError("setup_tag_expression not evaluable: %r / %r" % ([(k, v) for _, k, v in outs][:2], seen))
+            want = member(configured).name
+            _, after = current(it, outs[0][0])
+            if all(x == want for x in seen) and isinstance(after, EnumVal) and after.name == want:
+                chk.ok(rule, {"configured": configured, "in force before": before, "parsed under": seen}, nontrivial_key=("setup", configured, before))
+            else:
+                _fail(chk, rule, f, "configured %s, %s in force before: parsed under %s" % (configured, before, seen),
+                      "a Configuration with tag_expression_protocol=%s, created while %s is the process-wide protocol (left by an earlier "
+                      "Configuration), parses its expressions under %s and leaves %r in force: the configured protocol must be selected "
+                      "before the first expression is parsed, unconditionally" % (configured, before, seen, after))
+
+
+def _enum_canon(ci, name):
+    from .absexpr import _enum_canonical
+    return _enum_canonical(ci, name)
 
 
 def check_config_tags(chk, ix):
